@@ -394,9 +394,10 @@ def standard_proof_stage(chk, prop_module, theorems, extra_targets=None):
     chk.coverage["gen_tables_ok"] = gen_ok
     chk.coverage["coq_build_log_tail"] = out[-1500:] if not ok else ""
     closure = coq_closure("Properties/%s.v" % prop_module)
-    chk.coverage["coq_files_in_closure"] = closure
+    # several statement files of one property: the coverage keys accumulate
+    chk.coverage["coq_files_in_closure"] = sorted(set(chk.coverage.get("coq_files_in_closure") or []) | set(closure))
     bad = forbidden_scan(closure)
-    chk.coverage["forbidden_scan"] = bad
+    chk.coverage["forbidden_scan"] = sorted(set(chk.coverage.get("forbidden_scan") or []) | set(bad)) if isinstance(bad, list) else bad
     chk.oblige("no Admitted/Axiom/Parameter/... in the development", not bad)
     if not ok:
         for t in theorems:
@@ -407,7 +408,7 @@ def standard_proof_stage(chk, prop_module, theorems, extra_targets=None):
         for t in theorems:
             chk.oblige(t, False)
         return False, raw
-    chk.coverage["assumptions_printed"] = res
+    chk.coverage["assumptions_printed"] = dict(chk.coverage.get("assumptions_printed") or {}, **res)
     allok = True
     for t in theorems:
         closed = res.get(t, "") == "Closed under the global context"
